@@ -228,7 +228,7 @@ func (la *lockAnalysis) buildDynamicEdges() {
 			if !ok || k.Call.IsInvoke() || k.Call.StaticCallee() != nil {
 				return
 			}
-			if ld, ok := k.Call.Value.(*ssa.UnOp); ok {
+			if ld, ok := c.ResolveAt(k.Call.Value, in).(*ssa.UnOp); ok {
 				if ia, ok := ld.X.(*ssa.IndexAddr); ok {
 					if _, isTQ := isLoadOfField(ia.X, a.TaskQueue); isTQ {
 						taskCall = in
